@@ -27,6 +27,6 @@ bld || { tail -20 $WT/_bld.log; git -C $WT checkout -- .; echo "VERDICT patched-
 summ=$(grep "tests passed" $WT/_ctest.log)
 demo patched; r1=$?
 git -C $WT checkout -- .
-echo "VERDICT demo_orig=$r0 demo_patched=$r1 ctest_rc=$rt [$summ]"
+echo "VERDICT demo_orig=$r0 demo_patched=$r1 ctest_rc=$rt [$summ] repo_head=$(git -C /repo rev-parse --short=8 HEAD)" | tee $D/verify.log
 tail -3 $WT/_demo_patched.out | cut -c1-300
 [ $r0 = 0 ] && [ $r1 != 0 ] && [ $r1 != 99 ] && [ $rt = 0 ]
